@@ -351,6 +351,20 @@ class C16(Prop):
                     elif name == "string":
                         tmap["string"] = (str, bytes)
                     v = c({"type": "custom" if name not in ("integer", "string") else name, "minimum": 1}, types=tmap)
+                    # model: the class's own type checks, except for the names in the mapping, which become
+                    # isinstance tests that keep booleans apart from numbers
+                    def legacy(pytypes):
+                        pytypes = pytypes if isinstance(pytypes, tuple) else (pytypes,)
+                        return lambda chk, x: isinstance(x, pytypes) and not (isinstance(x, bool) and bool not in pytypes)
+                    want_tc = expected_typechecker(probe_typechecker(c.TYPE_CHECKER),
+                                                   dict((k, legacy(t)) for k, t in tmap.items()))
+                    got_tc = probe_typechecker(v.TYPE_CHECKER)
+                    if got_tc != want_tc:
+                        i = [k for k, (a, b) in enumerate(zip(got_tc, want_tc)) if a != b][0]
+                        res.fail(("types-argument-validator-differs-from-model",),
+                                 "%s: type %r value %r: %r, expected %r (class checks overridden by the mapping only)" % (
+                                     desc, TYPE_NAMES[i // len(TYPE_VALUES)], TYPE_VALUES[i % len(TYPE_VALUES)],
+                                     got_tc[i], want_tc[i]))
                     w.add("val", v, desc)
                 elif op == "checks":
                     fc = w.pick("fc", on)
